@@ -37,29 +37,93 @@ Proof.
   constructor; [|apply IH; exact Hb]. split; [destruct k; simpl in *; congruence|exact Hq].
 Qed.
 
+(* once a branch of a level has fired, head and alternatives of the rest of the level leave the state alone *)
+Lemma level_fired e r : has_next r = false -> forall k o, k <> KNext -> level e k r (true, o) = (true, o).
+Proof.
+  induction r as [cs tg body IH] using rule_ind'. intros Hn k o Hk. apply has_next_body in Hn.
+  cbn [level].
+  assert (Hmay : (match k with KNext => true | _ => negb (fst (true, o)) end && holds e cs) = false)
+    by (destruct k; try reflexivity; congruence).
+  rewrite Hmay. clear Hmay.
+  induction body as [|[k0 q] body IHb]; [reflexivity|].
+  inversion IH as [|? ? Hq Hrest]; subst. inversion Hn as [|? ? [Hk0 Hnq] Hnrest]; subst. simpl in Hk0, Hq.
+  destruct k0.
+  - apply IHb; assumption.
+  - rewrite (Hq Hnq KAlt o) by discriminate. apply IHb; assumption.
+  - congruence.
+Qed.
+
 Lemma level_ok e r : has_next r = false -> forall k a st, k <> KNext -> rel e a st ->
   rel e (Some (tlevel k r a)) (level e k r st).
 Proof.
   induction r as [cs tg body IH] using rule_ind'. intros Hn k a st Hk Hrel.
   apply has_next_body in Hn.
-  (* the exception level *)
-  assert (Hexc : forall a0 st0, rel e a0 st0 ->
-     rel e ((fix rf (l : list (kind * rule)) (a : option tree) {struct l} : option tree :=
-               match l with
-               | [] => a
-               | (KRef, q) :: l' => rf l' (Some (tlevel KAlt q a))
-               | _ :: l' => rf l' a
-               end) body a0)
-           ((fix rf (l : list (kind * rule)) (s : lstate) {struct l} : lstate :=
-               match l with
-               | [] => s
-               | (KRef, q) :: l' => rf l' (level e KAlt q s)
-               | _ :: l' => rf l' s
-               end) body st0)).
-  { clear Hrel. induction body as [|[k0 q] body IHb]; intros a0 st0 H0; [exact H0|].
-    inversion IH as [|? ? Hq Hrest]; subst. inversion Hn as [|? ? [_ Hnq] Hnrest]; subst.
-    destruct k0; try (apply IHb; assumption).
-    apply IHb; try assumption. apply Hq; [exact Hnq|discriminate|exact H0]. }
+  (* the branch with its refinements: the first written refinement that fires wins *)
+  assert (Hme : forall s0, s0 = (false, []) \/ (fst s0 = true /\ length (snd s0) <= 1) ->
+     let met := (fix rf (l : list (kind * rule)) {struct l} : tree :=
+                   match l with
+                   | [] => Leaf 0 cs (tag_list tg)
+                   | (KRef, q) :: l' => Node 0 SExc (rf l') (tlevel KAlt q None)
+                   | _ :: l' => rf l'
+                   end) body in
+     let exc := (fix rf (l : list (kind * rule)) (s : lstate) {struct l} : lstate :=
+                   match l with
+                   | [] => s
+                   | (KRef, q) :: l' => rf l' (level e KAlt q s)
+                   | _ :: l' => rf l' s
+                   end) body s0 in
+     nextfree met = true /\ fst (pe met e) = negb (holds e cs) /\
+     (s0 = (false, []) -> holds e cs = true -> snd (pe met e) = (if fst exc then snd exc else tag_list tg)) /\
+     (s0 = (false, []) -> length (if fst exc then snd exc else tag_list tg) <= 1) /\
+     (fst s0 = true -> exc = s0)).
+  { clear Hrel. induction body as [|[k0 q] body IHb]; intros s0 Hs0.
+    - cbn zeta. simpl. repeat split.
+      + intros -> _. reflexivity.
+      + intros ->. simpl. destruct tg; simpl; lia.
+    - inversion IH as [|? ? Hq Hrest]; subst. inversion Hn as [|? ? [_ Hnq] Hnrest]; subst. simpl in Hq.
+      specialize (IHb Hrest Hnrest).
+      destruct k0; try (apply IHb; assumption).
+      (* a refinement q *)
+      pose proof (Hq Hnq KAlt None (false, []) ltac:(discriminate) eq_refl) as Hrq. simpl in Hrq.
+      destruct Hrq as [Hqf [Hqs [Hql Hqn]]].
+      destruct Hs0 as [->|[Hf0 Hl0]].
+      + (* nothing fired before q *)
+        destruct (pe (tlevel KAlt q None) e) as [fr cr] eqn:Eq. simpl in Hqf, Hqs.
+        destruct (level e KAlt q (false, [])) as [sf sc] eqn:El. simpl in Hqf, Hqs, Hql. subst sf sc.
+        destruct fr; simpl negb in *.
+        * (* q does not fire: as if it were not there *)
+          destruct (IHb (false, []) (or_introl eq_refl)) as [I1 [I2 [I3 [I4 I5]]]].
+          cbn zeta in *.
+          set (rest := (fix rf (l : list (kind * rule)) {struct l} : tree := _) body) in *.
+          cbn [pe nextfree]. rewrite I1, Hqn, Eq.
+          specialize (I3 eq_refl). specialize (I4 eq_refl).
+          destruct (holds e cs); simpl negb in *; destruct (pe rest e) as [fl cl]; simpl in I2, I3; subst fl.
+          -- repeat split; try reflexivity; try discriminate.
+             ++ intros _ _. simpl. rewrite (I3 eq_refl). apply union_nil_small. exact I4.
+             ++ intros _. exact I4.
+          -- repeat split; try reflexivity; try discriminate. intros _. exact I4.
+        * (* q fires: it wins, whatever comes after *)
+          destruct (IHb (true, cr) (or_intror (conj eq_refl Hql))) as [I1 [I2 [_ [_ I5]]]].
+          cbn zeta in *.
+          set (rest := (fix rf (l : list (kind * rule)) {struct l} : tree := _) body) in *.
+          cbn [pe nextfree]. rewrite I1, Hqn, Eq. rewrite (I5 eq_refl).
+          destruct (holds e cs); simpl negb in *; destruct (pe rest e) as [fl cl]; simpl in I2; subst fl.
+          -- repeat split; try reflexivity; try discriminate.
+             ++ intros _ _. simpl. apply union_nil_small. exact Hql.
+             ++ intros _. exact Hql.
+          -- repeat split; try reflexivity; try discriminate. intros _. exact Hql.
+      + (* something fired before q: q's level leaves the state alone *)
+        destruct s0 as [sf sc]. simpl in Hf0, Hl0. subst sf.
+        rewrite (level_fired e q Hnq KAlt sc) by discriminate.
+        destruct (IHb (true, sc) (or_intror (conj eq_refl Hl0))) as [I1 [I2 [_ [_ I5]]]].
+        cbn zeta in *.
+        set (rest := (fix rf (l : list (kind * rule)) {struct l} : tree := _) body) in *.
+        cbn [pe nextfree]. rewrite I1, Hqn.
+        destruct (holds e cs); simpl negb in *; destruct (pe rest e) as [fl cl]; simpl in I2; subst fl.
+        * repeat split; try discriminate.
+          -- destruct (pe (tlevel KAlt q None) e) as [fr cr]. destruct fr; reflexivity.
+          -- intros _. apply I5. reflexivity.
+        * repeat split; try reflexivity; try discriminate. intros _. apply I5. reflexivity. }
   (* the siblings *)
   assert (Hsib : forall t0 st0, rel e (Some t0) st0 ->
      rel e (Some ((fix sib (l : list (kind * rule)) (t : tree) {struct l} : tree :=
@@ -74,32 +138,20 @@ Proof.
                | (KRef, _) :: l' => sib l' s
                | (k', q) :: l' => sib l' (level e k' q s)
                end) body st0)).
-  { clear Hrel Hexc. induction body as [|[k0 q] body IHb]; intros t0 st0 H0; [exact H0|].
+  { clear Hrel Hme. induction body as [|[k0 q] body IHb]; intros t0 st0 H0; [exact H0|].
     inversion IH as [|? ? Hq Hrest]; subst. inversion Hn as [|? ? [Hk0 Hnq] Hnrest]; subst.
     simpl in Hk0.
     destruct k0; try (apply IHb; assumption).
     - apply IHb; try assumption. apply Hq; [exact Hnq|discriminate|exact H0].
     - congruence. }
   cbn [tlevel level]. apply Hsib. clear Hsib.
-  specialize (Hexc None (false, []) eq_refl).
-  set (exc_t := (fix rf (l : list (kind * rule)) (a : option tree) {struct l} : option tree := _) body None) in *.
+  destruct (Hme (false, []) (or_introl eq_refl)) as [Hme3 [Hme1 [Hme2' [Hlen' _]]]]. clear Hme.
+  cbn zeta in *.
+  set (me := (fix rf (l : list (kind * rule)) {struct l} : tree := _) body) in *.
   set (exc_s := (fix rf (l : list (kind * rule)) (s : lstate) {struct l} : lstate := _) body (false, [])) in *.
-  (* the branch itself with its exception level *)
-  set (me := match exc_t with None => Leaf 0 cs (tag_list tg) | Some x => Node 0 SExc (Leaf 0 cs (tag_list tg)) x end).
-  set (mine := if fst exc_s then snd exc_s else tag_list tg).
-  assert (Hmine_len : length mine <= 1).
-  { unfold mine. destruct exc_t as [x|]; simpl in Hexc.
-    - destruct Hexc as [_ [_ [Hl _]]]. destruct (fst exc_s); [exact Hl|destruct tg; simpl; lia].
-    - rewrite Hexc. simpl. destruct tg; simpl; lia. }
-  assert (Hme : fst (pe me e) = negb (holds e cs) /\ (holds e cs = true -> snd (pe me e) = mine) /\ nextfree me = true).
-  { unfold me, mine. destruct exc_t as [x|]; simpl in Hexc.
-    - destruct Hexc as [Hf [Hs [Hl Hnx]]]. simpl. destruct (holds e cs); simpl.
-      + destruct (pe x e) as [fr cr]. simpl in *. rewrite Hf. destruct fr; simpl.
-        * split; [reflexivity|]. split; [|exact Hnx]. intros _. apply union_nil_small. destruct tg; simpl; lia.
-        * split; [reflexivity|]. split; [|exact Hnx]. intros _. rewrite Hs. apply union_nil_small. rewrite <- Hs. exact Hl.
-      + split; [reflexivity|]. split; [discriminate|exact Hnx].
-    - rewrite Hexc. simpl. split; [reflexivity|]. split; [reflexivity|reflexivity]. }
-  destruct Hme as [Hme1 [Hme2 Hme3]].
+  set (mine := if fst exc_s then snd exc_s else tag_list tg) in *.
+  assert (Hmine_len : length mine <= 1) by (apply Hlen'; reflexivity).
+  assert (Hme2 : holds e cs = true -> snd (pe me e) = mine) by (apply Hme2'; reflexivity).
   destruct a as [ta|]; simpl in Hrel.
   - destruct Hrel as [Hf [Hs [Hl Hnx]]].
     assert (Hsel : sel_of k = SAlt) by (destruct k; try reflexivity; congruence).
